@@ -22,7 +22,7 @@ use std::{
 use compio_buf::BufResult;
 use compio_driver::{
     Cancel, DriverType, Key, Proactor, PushEntry, SharedFd,
-    op::{AcceptMulti, Asyncify, Read},
+    op::{AcceptMulti, Asyncify, Read, SendZc},
 };
 use hcore::out::{Report, cases_from_arg, panic_msg};
 use hdrv::{
@@ -35,11 +35,13 @@ type BlkFn = Box<dyn FnOnce() -> BufResult<usize, TBuf> + Send>;
 type ReadOp = Read<TBuf, SharedFd<OwnedFd>>;
 type AccOp = AcceptMulti<SharedFd<UnixListener>>;
 type BlkOp = Asyncify<BlkFn, TBuf>;
+type ZcOp = SendZc<TBuf, SharedFd<std::net::TcpStream>>;
 
 enum AnyKey {
     Read(Key<ReadOp>),
     Acc(Key<AccOp>),
     Blk(Key<BlkOp>),
+    Zc(Key<ZcOp>),
 }
 
 struct OpState {
@@ -109,6 +111,7 @@ struct Ctx {
     rawfd2fd: HashMap<u64, u64>,
     ops: Vec<OpState>,
     ptr2op: HashMap<u64, String>,
+    zc_peers: Vec<std::net::TcpStream>,
     trace: Vec<Ev>,
     bufid2op: HashMap<u64, String>,
 }
@@ -304,6 +307,7 @@ fn run_case(case: &Value, rep: &mut Report, trace_out: &mut Vec<String>, settle_
             })
             .collect(),
         ptr2op: HashMap::new(),
+        zc_peers: vec![],
         trace: vec![],
         bufid2op: HashMap::new(),
     };
@@ -388,6 +392,22 @@ fn run_case(case: &Value, rep: &mut Report, trace_out: &mut Vec<String>, settle_
                                 hev("h.hsub", oi, 0);
                             }
                             PushEntry::Ready(_) => panic!("harness: accept completed at push"),
+                        }
+                    }
+                    "zc" => {
+                        // zero-copy send over loopback TCP: result completion (MORE) + notification (final)
+                        let l = std::net::TcpListener::bind("127.0.0.1:0").expect("bind");
+                        let c = std::net::TcpStream::connect(l.local_addr().unwrap()).expect("connect");
+                        let (srv, _) = l.accept().expect("accept");
+                        ctx.zc_peers.push(srv);
+                        let payload: Vec<u8> = (0..6u8).map(|i| 0xC0 | i).collect();
+                        let buf = TBuf::from_vec(oi as u64 + 1, payload);
+                        match d.push(SendZc::new(SharedFd::new(c), buf, rustix::net::SendFlags::empty())) {
+                            PushEntry::Pending(k) => {
+                                ctx.ops[oi].key = Some(AnyKey::Zc(k));
+                                hev("h.hsub", oi, 0);
+                            }
+                            PushEntry::Ready(_) => panic!("harness: zero-copy send completed at push"),
                         }
                     }
                     "blocking" => {
@@ -508,6 +528,26 @@ fn run_case(case: &Value, rep: &mut Report, trace_out: &mut Vec<String>, settle_
                             }
                         }
                     }
+                    AnyKey::Zc(k) => {
+                        let first = d.pop_multishot(&k);
+                        match d.pop(k) {
+                            PushEntry::Pending(k) => Some(AnyKey::Zc(k)),
+                            PushEntry::Ready(BufResult(res, op)) => {
+                                use compio_buf::IntoInner;
+                                let mut buf = op.into_inner();
+                                buf.taken = true;
+                                // the send result travels in the first (MORE) completion; the final one is the notification
+                                let sent = first.map(|BufResult(r, _)| r);
+                                let ok = match (&sent, &res) {
+                                    (Some(Ok(n)), _) => *n == 6 && buf.v.len() == 6 && buf.v.iter().enumerate().all(|(i, b)| *b == 0xC0 | i as u8),
+                                    (_, Err(e)) => cancel_req && e.raw_os_error() == Some(libc::ECANCELED),
+                                    _ => res.is_ok(),
+                                };
+                                hev("h.hready", oi, ok as u64);
+                                None
+                            }
+                        }
+                    }
                     AnyKey::Blk(k) => match d.pop(k) {
                         PushEntry::Pending(k) => Some(AnyKey::Blk(k)),
                         PushEntry::Ready(BufResult(res, op)) => {
@@ -548,6 +588,14 @@ fn run_case(case: &Value, rep: &mut Report, trace_out: &mut Vec<String>, settle_
                             hev("h.hready", oi, 1);
                         }
                     }
+                    AnyKey::Zc(k) => {
+                        if let Some(BufResult(_res, op)) = d.cancel(k) {
+                            use compio_buf::IntoInner;
+                            let mut buf = op.into_inner();
+                            buf.taken = true;
+                            hev("h.hready", oi, 1);
+                        }
+                    }
                     AnyKey::Blk(k) => {
                         if let Some(BufResult(res, op)) = d.cancel(k) {
                             use compio_buf::IntoInner;
@@ -564,6 +612,7 @@ fn run_case(case: &Value, rep: &mut Report, trace_out: &mut Vec<String>, settle_
                     AnyKey::Read(k) => d.register_cancel(k),
                     AnyKey::Acc(k) => d.register_cancel(k),
                     AnyKey::Blk(k) => d.register_cancel(k),
+                    AnyKey::Zc(k) => d.register_cancel(k),
                 };
                 ctx.ops[oi].token = Some(t);
             }
